@@ -295,6 +295,64 @@ def run_retry(ctx):
                          % (n, n, e.__cause__, attempts), replay)
             ctx.case(("retry-per-decoration", n, workers))
 
+    # ---- a custom retry decorator may be any callable OBJECT - also one that is falsy (a policy object with __len__ == 0):
+    # it is used for calls and store operations exactly as for modified-time queries
+    class Policy:
+        def __init__(self, n):
+            self.n, self.decorated = n, 0
+
+        def __len__(self):
+            return 0
+
+        def __call__(self, fn):
+            self.decorated += 1
+
+            def w(*a, **k):
+                for i in range(self.n):
+                    try:
+                        return fn(*a, **k)
+                    except OSError:
+                        if i == self.n - 1:
+                            raise
+            return w
+    for where in ("call", "store-write", "mtime"):
+        pol = Policy(3)
+        att = {"n": 0}
+
+        def flaky_once(*a):
+            att["n"] += 1
+            if att["n"] < 2:
+                raise OSError("transient")
+            return 5
+
+        class PStore(uberjob.ValueStore):
+            v, t = None, None
+
+            def read(self):
+                return self.v
+
+            def write(self, v):
+                if where == "store-write":
+                    flaky_once()
+                self.v, self.t = v, dt.datetime(2022, 1, 1)
+
+            def get_modified_time(self):
+                if where == "mtime":
+                    flaky_once()
+                return self.t
+        plan, reg = uberjob.Plan(), uberjob.Registry()
+        x = plan.call(flaky_once) if where == "call" else plan.call(lambda: 5)
+        reg.add(x, PStore())
+        ctx.case(("retry-falsy-decorator", where))
+        try:
+            got = uberjob.run(plan, registry=reg, output=x, retry=pol, progress=None, max_workers=1)
+            oc = "ok" if got == 5 else "returned %r" % (got,)
+        except uberjob.CallError as e:
+            oc = "failed with %r after %d attempt(s)" % (e.__cause__, att["n"])
+        if oc != "ok":
+            ctx.fail("retry:falsy-decorator", "run(retry=<callable policy object that is falsy>, 3 attempts), a %s that fails once: run %s (the decorator was applied %d time(s))"
+                     % (where, oc, pol.decorated), {"where": where, "attempts_made": att["n"]})
+
     # ---- the library's own helper calls (unpack, the implicit gathers) are calls too: a transient failure while iterating or
     # hashing a user value is retried
     class FlakyIterable:
